@@ -64,6 +64,7 @@ def gen_plan(prop, run_seed, tier):
         else:
             n = w.choice([10, 13, 20, 23, 32])  # C(32,3) = 4960 <= the default budget of 5000: still enumerated
     return dict(engine="dbalsim", prop=prop, sizes=sizes, n=n, plate_extremes=extremes,
+                var_regime=w.choice(["spread", "spread", "spread", "nearly-equal", "tiny"]),
                 mode=("platehomo" if extremes else w.choice(["homo", "hetero", "platehomo"])),
                 seed=w.randrange(2**31), zero_dist=w.choice([0.0, 0.2, 0.6, 1.0 if w.random() < 0.15 else 0.3]),
                 D=w.randint(1, 3), var_span=w.choice([1, 3, 6]), sched_seed=s.randrange(2**31),
@@ -188,8 +189,16 @@ def _run(plan, log, stats, violation):
                   for _ in range(n)]
     elif plan["mode"] == "hetero":
         FT = fake_theta_cls()
-        thetas = [FT(nprng.normal(0, 1.5, n_rows), 10 ** nprng.uniform(-plan["var_span"] / 2, plan["var_span"] / 2, n_rows))
-                  for _ in range(n)]
+        vr = plan.get("var_regime", "spread")
+
+        def variances():
+            if vr == "nearly-equal":  # distinct variances a tolerance would call equal
+                return float(10 ** nprng.uniform(-2, 2)) * (1 + 1e-7 * nprng.uniform(-1, 1, n_rows))
+            if vr == "tiny":  # the low end of the range, with a few per cent of spread
+                return 1e-6 * (1 + 0.05 * nprng.uniform(-1, 1, n_rows))
+            return 10 ** nprng.uniform(-plan["var_span"] / 2, plan["var_span"] / 2, n_rows)
+
+        thetas = [FT(nprng.normal(0, 1.5, n_rows), variances()) for _ in range(n)]
     else:
         # one variance per (plate, posterior sample): homoscedastic within a plate, different between plates
         FT = fake_theta_cls()
